@@ -234,12 +234,13 @@ pub fn parse_file_internal(context: &ParseContext) -> Result<(), Error> {
     } = context.clone();
     let include_paths = include_paths.borrow_mut();
 
-    let current_path = if !current_path.as_path().exists() {
+    // a directory that happens to carry the name is not the file
+    let current_path = if !current_path.as_path().is_file() {
         let mut new_path = PathBuf::new();
         for parent in include_paths.iter() {
             let mut full_path = parent.clone();
             full_path.push(current_path.clone());
-            if full_path.as_path().exists() {
+            if full_path.as_path().is_file() {
                 new_path = full_path;
                 break;
             }
@@ -271,7 +272,13 @@ pub fn parse_file_internal(context: &ParseContext) -> Result<(), Error> {
     }
 
     let mut source = String::new();
-    file.read_to_string(&mut source)?;
+    if let Err(err) = file.read_to_string(&mut source) {
+        bail!(
+            "Cannot read file {} because: {}",
+            current_path.to_string_lossy(),
+            err
+        );
+    }
 
     let start_paths = include_paths.clone();
     let include_paths = RefCell::new(include_paths);
